@@ -4,6 +4,7 @@
 #include "libphysica/Linear_Algebra.hpp"
 #include "libphysica/Natural_Units.hpp"
 #include "libphysica/Utilities.hpp"
+#include <sys/resource.h>
 // defined in Utilities.cpp with external linkage, not declared in Utilities.hpp
 namespace libphysica
 {
@@ -51,6 +52,9 @@ static void ensure_dir(const std::string& path)
 //   cpN    std::cout.precision(N)                   cff / cfs / cfh   std::cout floatfield fixed / scientific / hexfloat
 //   preN   the path already holds a file of N bytes (numeric lines) when Export_* is called (instead of no file)
 //   rel    the working directory is the file's directory and the path is given relative to it
+//   nofN   the soft limit on open file descriptors (RLIMIT_NOFILE) of the process is N (256 is the default of several
+//          systems, users lower it with `ulimit -n`); restored afterwards.  A request that leaves descriptors (or other
+//          per-process resources) behind works for a while and then stops working: long sessions reach the limit.
 // The arguments of the case are read before the state is installed and the answer is printed after it was restored.
 struct Punct : std::numpunct<char>
 {
@@ -66,7 +70,8 @@ struct Ambient
 	bool locale = false, rel = false, inside = false;
 	char dp = '.', ts = ',';
 	std::string gr;
-	long cout_precision = -1, pre = -1;
+	long cout_precision = -1, pre = -1, nofile = -1;
+	struct rlimit rl_saved;
 	char cout_float = 0;
 	std::string cwd_saved;
 	void parse(const std::string& spec)
@@ -93,6 +98,8 @@ struct Ambient
 				pre = std::strtol(it.c_str() + 3, nullptr, 10);
 			else if(it == "rel")
 				rel = true;
+			else if(it.compare(0, 3, "nof") == 0)
+				nofile = std::strtol(it.c_str() + 3, nullptr, 10);
 			else
 			{
 				fprintf(stderr, "harness: unknown ambient item %s\n", it.c_str());
@@ -140,12 +147,24 @@ struct Ambient
 			std::cout.setf(std::ios_base::fixed | std::ios_base::scientific, std::ios_base::floatfield);
 		if(locale)
 			std::locale::global(std::locale(std::locale::classic(), new Punct(dp, ts, gr)));
+		if(nofile >= 0 && getrlimit(RLIMIT_NOFILE, &rl_saved) == 0)
+		{
+			struct rlimit rl = rl_saved;
+			if(rl.rlim_max == RLIM_INFINITY || (rlim_t) nofile <= rl.rlim_max)
+				rl.rlim_cur = (rlim_t) nofile;
+			if(setrlimit(RLIMIT_NOFILE, &rl) != 0)
+				nofile = -1;
+		}
+		else
+			nofile = -1;
 	}
 	void leave()
 	{
 		if(!inside)
 			return;
 		inside = false;
+		if(nofile >= 0)
+			setrlimit(RLIMIT_NOFILE, &rl_saved);
 		if(locale)
 			std::locale::global(std::locale::classic());
 		std::cout.precision(6);
@@ -169,7 +188,7 @@ static void handler(vh::Reader& r, vh::Out& o)
 	{
 		A.parse(r.word());
 		op = r.word();
-		if(op.compare(0, 3, "rt_") != 0 && op != "session")
+		if(op.compare(0, 3, "rt_") != 0 && op != "session" && op != "lsession")
 		{
 			o.w("HARNESSERR ambient_state_only_for_round_trips");
 			return;
@@ -297,8 +316,10 @@ static void handler(vh::Reader& r, vh::Out& o)
 		o.i(n);
 		put_table(o, back);
 	}
-	else if(op == "session")
+	else if(op == "session" || op == "lsession")
 	{
+		// lsession <reps> <np> ...: the same grammar, the block of calls is made <reps> times over in the one process
+		// (every answer of every repetition is printed);   fe <i> = File_Exists(path i) -> 0 / 1
 		// several calls in ONE process: session <np> <path>.. <nops> then per call
 		//   el <i> <header> <list> <dim> | et <i> <header> <table> <dims> | il <i> <dim> <ign> | it <i> <dims> <ign> | cl <i>
 		//   ef <i> <header> <fexpr> <x_list> <dims>                         (Export_Function over a list of arguments)
@@ -321,7 +342,8 @@ static void handler(vh::Reader& r, vh::Out& o)
 			std::vector<double> list;
 			std::vector<std::vector<double>> table;
 		};
-		long np = r.integer();
+		long reps = op == "lsession" ? r.integer() : 1;
+		long np	  = r.integer();
 		std::vector<std::string> paths, use;
 		for(long k = 0; k < np; k++)
 			paths.push_back(r.word());
@@ -361,7 +383,7 @@ static void handler(vh::Reader& r, vh::Out& o)
 				c.dim = r.num(), c.ign = r.integer();
 			else if(c.kind == "it")
 				c.list = r.list(), c.ign = r.integer();
-			else if(c.kind != "cl")
+			else if(c.kind != "cl" && c.kind != "fe")
 			{
 				o.w("HARNESSERR session_call");
 				return;
@@ -375,6 +397,7 @@ static void handler(vh::Reader& r, vh::Out& o)
 		}
 		std::vector<Answer> answers;
 		A.enter(paths.empty() ? std::string("x") : paths[0]);
+		for(long rep = 0; rep < reps; rep++)
 		for(auto& c : calls)
 		{
 			const std::string& p = use[c.path];
@@ -390,6 +413,8 @@ static void handler(vh::Reader& r, vh::Out& o)
 				answers.push_back({'l', 0, Import_List(p, c.dim, (unsigned int) c.ign), {}});
 			else if(c.kind == "it")
 				answers.push_back({'t', 0, {}, Import_Table(p, c.list, (unsigned int) c.ign)});
+			else if(c.kind == "fe")
+				answers.push_back({'c', File_Exists(p) ? 1L : 0L, {}, {}});
 			else
 				answers.push_back({'c', (long) Count_Lines(p), {}, {}});
 		}
